@@ -145,6 +145,18 @@ CHECKS["C10"] = (
     "the tabulated composition; generic forms are judged against the independent semantics (Formula / Glycan / Obs / "
     "prefixed numbers / tags / alternatives / multipliers).",
     "Assumes TLC and the projection; 'the same error' is read as 'every spelling fails'.", "DESIGN.md §6 C10")
+CHECKS["C15"] = (
+    "TLA+ formula grammar and compositions (Chem.tla; canonical-text round trip and additivity model-checked over a "
+    "hazard symbol set in MC_Formula) + TLC trace validation of recorded write/parse_chem_formula, chem_mass, "
+    "write/parse_glycan_formula, glycan_comp, glycan_mass calls (Trace_Formula)",
+    "TLC model-checks that the reference grammar parses the canonical text of a composition back to it and is additive "
+    "on a hazard symbol set (C/Ce/Cl/Co, particles, bracketed isotopes, decimals), then judges every recorded round "
+    "trip of the real writer/parser (all separators, Hill order), that the written text denotes the composition under "
+    "the notation, parse additivity on seeded texts, mass of string = mass of composition, and for glycans the round "
+    "trip whenever the spec's tokenisation count says the written form is unambiguous, count-weighted composition and "
+    "mass, names = synonyms.",
+    "Assumes TLC and the projection (counts scaled by 1e4). Monosaccharide formulas travel as raw table rows.",
+    "DESIGN.md §6 C15")
 NOT_YET = "check not built yet in this round (planned with the TLA+ technique, see DESIGN.md §6)"
 
 
